@@ -333,6 +333,28 @@ def run_file(desc):
                 f'`gemato hash -H "{" ".join(names)}"` printed {toks!r} '
                 f'(rc={rc}), expected {want!r}', sig='cli-output')
         classes = ['files']
+        # same path, same size, same mtime, other content: a second look
+        # must see the new content
+        if len(data) > 0:
+            st0 = os.stat(path)
+            data2 = bytes([data[0] ^ 0xFF]) + data[1:]
+            with open(path, 'r+b') as f:
+                f.write(data2)
+            os.utime(path, ns=(st0.st_atime_ns, st0.st_mtime_ns))
+            exp2 = R.digests(data2, names)
+            with contextlib.closing(get_file_metadata(path, names)) as g:
+                vals2 = list(g)
+            got2 = dict(vals2[5])
+            got2.pop('__size__', None)
+            h2 = hash_path(path, algs)
+            if got2 != exp2 or any(h2[a] != exp2[n]
+                                   for n, a in zip(names, algs)):
+                return violation(
+                    f'file changed in place (same size and mtime): digests '
+                    f'still {got2!r}, content now hashes to {exp2!r}',
+                    sig='stale-digest-after-change')
+            classes.append('rehash-after-change')
+            data, exp = data2, exp2
         if desc['coreutils']:
             for n in names:
                 tool = COREUTILS.get(R.HASHLIB_NAME[n])
